@@ -42,11 +42,10 @@ theorem lookupAll_maxFreq (ctx : LearnCtx) (u : UserMap) (key : List Nat) (t : T
   rw [layeredLookup_maxOf, maxOf_split _ t]
 
 /-- one learning of an already known key: the phrase gets `learnStep` of its merged frequency, stamped with the
-    current time; nothing panics while the frequencies leave `shortInc` head room below `u32::MAX` -/
+    current time; nothing panics, whatever the stored frequencies (`saturating_add`, repair of F40) -/
 theorem learnPhrase_update (ctx : LearnCtx) (u : UserMap) (key : List Nat) (x : Text)
     (hlen : key.length = x.length) (hx : x ≠ [])
-    (hne : (allEntries ctx.sys u key).isEmpty = false)
-    (hb : max (mergedFreq ctx.sys u key x) (othersMax ctx.sys u key x) + shortInc ≤ u32Max) :
+    (hne : (allEntries ctx.sys u key).isEmpty = false) :
     learnPhrase ctx u key x =
       .ok (u.insert (key, x) (learnStep (othersMax ctx.sys u key x) (mergedFreq ctx.sys u key x), ctx.lifetime)) := by
   unfold learnPhrase
@@ -55,7 +54,7 @@ theorem learnPhrase_update (ctx : LearnCtx) (u : UserMap) (key : List Nat) (x : 
   rw [if_neg h1]
   simp only [lookupAll_isEmpty, hne, Bool.false_eq_true, if_false, lookupAll_phraseFreq,
     lookupAll_maxFreq ctx u key x hne, h2]
-  rw [estimate_editor _ _ _ (Nat.le_max_left _ _) hb]
+  rw [estimate_editor _ _ _ (Nat.le_max_left _ _)]
   rfl
 
 /-- first learning under a key nobody knows: frequency `firstFreq`, time 0 -/
@@ -127,9 +126,7 @@ theorem learnRepeat_spec (sys : List Entry) (key : List Nat) (x : Text)
   | nil => intro u _ _ _; exact ⟨u, rfl, rfl, rfl, fun _ _ => rfl⟩
   | cons lt rest ih =>
     intro u hne hf hy
-    have hb : max (mergedFreq sys u key x) (othersMax sys u key x) + shortInc ≤ u32Max := by
-      simp only [maxUserFreq, shortInc, u32Max] at *; omega
-    have hstep := learnPhrase_update { sys := sys, lifetime := lt } u key x hlen hx hne hb
+    have hstep := learnPhrase_update { sys := sys, lifetime := lt } u key x hlen hx hne
     simp only at hstep
     let nf := learnStep (othersMax sys u key x) (mergedFreq sys u key x)
     let u1 := u.insert (key, x) (nf, lt)
@@ -200,20 +197,18 @@ theorem learnPhrase_live (ctx : LearnCtx) (u u' : UserMap) (key : List Nat) (x :
           injection h with h
           refine key_fact (nf, ctx.lifetime) ?_ h.symm
           rw [estimate_no_timestamp] at hest
-          simp only [risingBand] at hest
+          simp only [risingBand, satAdd32, u32Max] at hest
           split at hest
           · cases hest
-          · split at hest
-            · cases hest
-            · injection hest with hest
-              have : 0 < risingDelta shortDiv shortPlus shortInc
-                  (phraseFreq (lookupAll ctx u key) x) (phraseFreq (lookupAll ctx u key) x)
-                  (maxFreq (lookupAll ctx u key)) := by
-                simp only [risingDelta, shortDiv, shortPlus, shortInc]
-                split <;> omega
-              simp only [maxUserFreq] at hest
-              show 1 ≤ nf
-              omega
+          · injection hest with hest
+            have : 0 < risingDelta shortDiv shortPlus shortInc
+                (phraseFreq (lookupAll ctx u key) x) (phraseFreq (lookupAll ctx u key) x)
+                (maxFreq (lookupAll ctx u key)) := by
+              simp only [risingDelta, shortDiv, shortPlus, shortInc]
+              split <;> omega
+            simp only [maxUserFreq] at hest
+            show 1 ≤ nf
+            omega
         · cases h
         · cases h
   · rw [if_pos hlen] at h
